@@ -10,7 +10,9 @@ Case(d, p) ==
   LET r == Sel(d, p) IN
   [dot |-> Write(p, "."), sl |-> Write(p, "/"), ty |-> TypesOf(p),
    cx |-> [j \in 1..Len(SelectSeq(p, LAMBDA s : s.ty = "COLLECTOR")) |-> SelectSeq(p, LAMBDA s : s.ty = "COLLECTOR")[j].v],
-   err |-> r.err, n |-> Len(r.res), ids |-> FlatIds(r.res), info |-> r.info, dead |-> r.dead,
+   err |-> r.err, n |-> Len(r.res), ids |-> FlatIds(r.res), dead |-> r.dead,
+   \* collectors lie outside the segment list of C01: decided by the model (xinfo), informational for verdicts
+   info |-> r.info \/ (\E j \in 1..Len(p) : p[j].ty = "COLLECTOR"), xinfo |-> r.info,
    names |-> Names(r.res),
    \* inverted max/min and inverted unique are defined as sets of members: order is not part of C13
    unordered |-> (Len(p) > 0 /\ p[Len(p)].ty = "KEYWORD" /\ p[Len(p)].inv),
